@@ -153,6 +153,11 @@ def poly_program(rng):
         ("twice", ["s"], ["    return s + s"], ["any"]),
         ("ident", ["q"], ["    r = q", "    return r"], ["any"]),
         ("accum", ["v", "n"], ["    total = v", "    for k in range(n):", "        total = total + v", "    return total"], ["num", "int"]),
+        # return-type joins: the sentinel path is never taken at run time (arguments are positive) but decides the declared type
+        ("reading", ["v"], ["    if v < 0:", "        return False", "    return v * 1.5"], ["num"]),
+        ("level", ["v"], ["    if v < 0:", "        return 0", "    return v / 4.0"], ["num"]),
+        ("flagged", ["v"], ["    if v < 0:", "        return True", "    return v + 2"], ["int"]),
+        ("clampf", ["v"], ["    if v > 1000:", "        return 1000", "    if v < 0:", "        return False", "    return v * 0.5"], ["num"]),
     ]
     chosen = rng.sample(bodies, rng.randint(1, 3))
     for name, params, body, kinds in chosen:
